@@ -619,3 +619,154 @@ Arguments PGet {V U} i.   Arguments PPut {V U} i v.  Arguments PPutH {V U} i k. 
 Arguments PSwap {V U} i j. Arguments PLen {V U} n.   Arguments PGoPut {V U} i v. Arguments PWriteH {V U} k u.
 Arguments PReadH {V U} k. Arguments PDump {V U}.
 Arguments OV {V} v. Arguments OArr {V} l. Arguments OUnit {V}.
+
+(* ------------------------------------------------------------------------------------------- *)
+(* E. wrappers of a nested struct field of an element (objectGoReflect.valueCache), on top of D.
+
+   After the repair of C13-F20, setReflectValue re-points the cached field wrappers recursively whenever
+   their owner is moved (sort, reallocation) or detached (reassign, delete, shrink): a cached field wrapper
+   always addresses "field In of whatever its owner addresses".  That is how it is represented here
+   ([FSub owner]); the recursion itself is abstracted.  A successful assignment to the field detaches the
+   cached wrapper ([FDet copy]) and evicts it; a FAILING assignment copies it and re-attaches it: no change. *)
+
+Section Nested.
+Variable V : Type.
+Variable zero : V.
+Variable U : Type.
+Variable app : U -> V -> V.
+Variable F : Type.                  (* value of the nested field *)
+Variable getf : V -> F.
+Variable setf : F -> V -> V.
+Variable UF : Type.                 (* in-place updates of the nested value *)
+Variable appf : UF -> F -> F.
+
+Inductive fwst := FSub (w : nat) | FDet (f : F).
+
+Record nst := mkNst {
+  n_s : ist V;
+  n_fws : list fwst;                (* every field wrapper ever created *)
+  n_fc : list (option nat);         (* valueCache["In"] of element wrapper w (by wrapper id) *)
+  n_fhs : list (option nat) }.      (* field handles kept by the script *)
+
+Inductive nop :=
+| NBase (o : pop V U)
+| NGetF (k : nat)                   (* FH.push(H[k].In) *)
+| NPutF (k : nat) (f : F)           (* H[k].In = {..}     succeeds *)
+| NPutFBad (k : nat)                (* H[k].In = 5        conversion fails *)
+| NWriteF (c : nat) (u : UF)        (* FH[c].X = z *)
+| NReadF (c : nat)
+| NSameF (k c : nat).               (* H[k].In === FH[c] *)
+
+Inductive nout := NO (o : pout V) | NF (f : option F) | NB (b : bool) | NErr.
+
+(* apply g to whatever wrapper w addresses *)
+Definition wupdate (s : ist V) (w : nat) (g : V -> V) : ist V :=
+  match nth_error (i_ws V s) w with
+  | Some (Live i) =>
+      match nth_error (i_arr V s) i with
+      | Some v => mkIst V (upd (i_arr V s) i (g v)) (i_cache V s) (i_ws V s) (i_hs V s)
+      | None => s
+      end
+  | Some (Det v) => mkIst V (i_arr V s) (i_cache V s) (upd (i_ws V s) w (Det (g v))) (i_hs V s)
+  | None => s
+  end.
+
+Definition fdenote (n : nst) (c : nat) : option F :=
+  match nth_error (n_fws n) c with
+  | Some (FSub w) => option_map getf (wdenote V (n_s n) w)
+  | Some (FDet f) => Some f
+  | None => None
+  end.
+
+Definition fhdenote (n : nst) (c : nat) : option F :=
+  match nth_error (n_fhs n) c with Some (Some x) => fdenote n x | _ => None end.
+
+(* the element wrapper behind script handle k, if it denotes anything *)
+Definition howner (n : nst) (k : nat) : option nat :=
+  match nth_error (i_hs V (n_s n)) k with
+  | Some (Some w) => match wdenote V (n_s n) w with Some _ => Some w | None => None end
+  | _ => None
+  end.
+
+Fixpoint setd {A} (d : A) (l : list A) (i : nat) (x : A) : list A :=
+  match i, l with
+  | 0, [] => [x]
+  | 0, _ :: t => x :: t
+  | S i', [] => d :: setd d [] i' x
+  | S i', h :: t => h :: setd d t i' x
+  end.
+
+Definition nstep (n : nst) (o : nop) : nst * nout :=
+  match o with
+  | NBase b => let (s', x) := istep V zero U app (n_s n) b in (mkNst s' (n_fws n) (n_fc n) (n_fhs n), NO x)
+  | NGetF k =>
+      match howner n k with
+      | Some w =>
+          match getd None (n_fc n) w with
+          | Some c => (mkNst (n_s n) (n_fws n) (n_fc n) (n_fhs n ++ [Some c]), NO OUnit)
+          | None => let c := length (n_fws n) in
+                    (mkNst (n_s n) (n_fws n ++ [FSub w]) (setd None (n_fc n) w (Some c)) (n_fhs n ++ [Some c]),
+                     NO OUnit)
+          end
+      | None => (mkNst (n_s n) (n_fws n) (n_fc n) (n_fhs n ++ [None]), NErr)
+      end
+  | NPutF k f =>
+      match howner n k with
+      | Some w =>
+          let cur := option_map getf (wdenote V (n_s n) w) in
+          let fws' := match getd None (n_fc n) w, cur with
+                      | Some c, Some fv => upd (n_fws n) c (FDet fv)
+                      | _, _ => n_fws n
+                      end in
+          (mkNst (wupdate (n_s n) w (setf f)) fws' (setd None (n_fc n) w None) (n_fhs n), NO OUnit)
+      | None => (n, NErr)
+      end
+  | NPutFBad k =>
+      match howner n k with Some _ => (n, NO OUnit) | None => (n, NErr) end
+  | NWriteF c u =>
+      match nth_error (n_fhs n) c with
+      | Some (Some x) =>
+          match nth_error (n_fws n) x with
+          | Some (FSub w) =>
+              (mkNst (wupdate (n_s n) w (fun v => setf (appf u (getf v)) v)) (n_fws n) (n_fc n) (n_fhs n),
+               NO OUnit)
+          | Some (FDet f) => (mkNst (n_s n) (upd (n_fws n) x (FDet (appf u f))) (n_fc n) (n_fhs n), NO OUnit)
+          | None => (n, NErr)
+          end
+      | _ => (n, NErr)
+      end
+  | NReadF c => (n, NF (fhdenote n c))
+  | NSameF k c =>
+      match howner n k with
+      | Some w =>
+          (n, NB (match nth_error (n_fhs n) c with
+                  | Some (Some x) => match nth_error (n_fws n) x with
+                                     | Some (FSub w') => Nat.eqb w w'
+                                     | _ => false
+                                     end
+                  | _ => false
+                  end))
+      | None => (n, NErr)
+      end
+  end.
+
+Fixpoint nrun (n : nst) (ops : list nop) : nst * list nout :=
+  match ops with
+  | [] => (n, [])
+  | o :: r => let (n1, x) := nstep n o in let (n2, xs) := nrun n1 r in (n2, x :: xs)
+  end.
+
+Definition ninit (l : list V) : nst := mkNst (iinit V l) [] [] [].
+
+(* the field cache mirrors the slice cache: attached field wrappers are exactly the cached ones *)
+Definition ninv (n : nst) : Prop :=
+  (forall w c, getd None (n_fc n) w = Some c -> nth_error (n_fws n) c = Some (FSub w)) /\
+  (forall c w, nth_error (n_fws n) c = Some (FSub w) -> getd None (n_fc n) w = Some c).
+End Nested.
+
+Arguments FSub {F} w.
+Arguments FDet {F} f.
+Arguments NBase {V U F UF} o. Arguments NGetF {V U F UF} k. Arguments NPutF {V U F UF} k f.
+Arguments NPutFBad {V U F UF} k. Arguments NWriteF {V U F UF} c u. Arguments NReadF {V U F UF} c.
+Arguments NSameF {V U F UF} k c.
+Arguments NO {V F} o. Arguments NF {V F} f. Arguments NB {V F} b. Arguments NErr {V F}.
